@@ -240,3 +240,24 @@ Proof.
   - exact (star_hits_den g rk Hr kinds Hk Hu o a Ha Hf).
 Qed.
 Print Assumptions resolved_exports_star_characterisation.
+
+(* the interop flag of __toESM is decided by the importing file alone: node mode iff the
+   importer is ESM-typed, for import statements and for import() alike *)
+Theorem to_esm_node_mode_iff_esm_typed_importer : forall typed form,
+  to_esm_node_mode typed form = true <-> typed = true.
+Proof. exact node_mode_iff. Qed.
+Print Assumptions to_esm_node_mode_iff_esm_typed_importer.
+
+(* hence from an ESM-typed importer the default export of a CommonJS file is module.exports,
+   as in node, with or without the __esModule marker and for every import form *)
+Theorem esm_typed_default_is_module_exports : forall form marker,
+  to_esm_default (to_esm_node_mode true form) marker = native_default.
+Proof. exact typed_default_native. Qed.
+Print Assumptions esm_typed_default_is_module_exports.
+
+(* full statement "default is module.exports for every importer": false of the faithful model
+   (deliberate Babel interop for importers that are not ESM-typed; known finding C02-G) *)
+Theorem default_is_module_exports_refuted : exists typed form marker,
+  to_esm_default (to_esm_node_mode typed form) marker <> native_default.
+Proof. exists false, IFDynamic, true. exact (untyped_marker_default IFDynamic). Qed.
+Print Assumptions default_is_module_exports_refuted.
